@@ -10,7 +10,8 @@ and how many rejecting checks precede its first write are NOT written here: they
 A mutator is a sequence of sub-steps `State → State × Except Err Unit`; the state reached at the raising
 sub-step is kept (a Python exception does not roll anything back).
 
-Not modelled: units / sources, function-arity checks, data sets other than scalars.
+Not modelled: units / sources, data sets other than scalars.  (The function-arity checks of `_create_cache` are:
+`buildCache`.)
 -/
 import MxlVerif.Model.Queries
 import MxlVerif.Generated.C03Mutators
@@ -657,7 +658,8 @@ def evalReadouts : List (Name × Fn) → Env → Except Err Env
 
 /-- `_get_args` including the final `args.pop(data)`: what `get_args`, `get_right_hand_side` and `__call__`
     all work with.  (Since the repair of F-C01-2 state-dependent coefficients are evaluated over
-    `args | data`, so the derivative entry points hand `dep ++ c.data` to `rhsFromArgs`.) -/
+    `args | data`, so the derivative entry points hand `dep ++ c.data` to `rhsFromArgs2` as the coefficients'
+    environment — and `dep` alone for the fluxes.) -/
 def rawArgs (c : Content) (cache : Cache) (vars : List (Name × Rat)) (t : Rat) : Except Err Env := do
   let env ← getArgsEnv c cache vars t
   pure (env.filter (fun kv => !(omKeys c.data).contains kv.1))
@@ -681,6 +683,31 @@ def overlayRow (env : Env) : List (Name × Fn) → List (Name × Rat) → Except
   | (rxn, f) :: rest, row => do
     let v ← f.calc env
     overlayRow env rest (omInsert row rxn v)
+
+/-- the second loop of `_get_right_hand_side` / `__call__` for one variable: the computed coefficient is evaluated on
+    `coef` (= `self._data | args`), the FLUX is read from `args` — the table `_get_args` returned, from which the data
+    sets were popped (a flux name that only a data set carries is a KeyError) -/
+def accDyn2 (args coef : Env) (k : Name) : List (Name × Fn) → List (Name × Rat) → Except Err (List (Name × Rat))
+  | [], dxdt => pure dxdt
+  | (flux, dv) :: rest, dxdt => do
+    let n ← dv.calc coef
+    let fv ← args.get flux
+    let dxdt' ← accumulate dxdt k (n * fv)
+    accDyn2 args coef k rest dxdt'
+
+def accDynAll2 (args coef : Env) : List (Name × List (Name × Fn)) → List (Name × Rat) →
+    Except Err (List (Name × Rat))
+  | [], dxdt => pure dxdt
+  | (k, st) :: rest, dxdt => do
+    let dxdt' ← accDyn2 args coef k st dxdt
+    accDynAll2 args coef rest dxdt'
+
+/-- `_get_right_hand_side(args=…)` / the tail of `__call__`: static coefficients times `args[flux]`, then the computed
+    ones (the shared core's `rhsFromArgs` with the two environments kept apart) -/
+def rhsFromArgs2 (cache : Cache) (varNames : List Name) (args coef : Env) : Except Err (List (Name × Rat)) := do
+  let z := varNames.map fun k => (k, (0 : Rat))
+  let d1 ← accStaticAll args cache.stoich z
+  accDynAll2 args coef cache.dynStoich d1
 
 /-- does the entry point go through `if (cache := self._cache) is None: cache = self._create_cache()`? -/
 def Query.needsCache : Query → Bool
@@ -706,7 +733,7 @@ def answer (c : Content) (cache : Cache) : Query → Except Err Ans
     pure (.assoc l)
   | .rhs vals t => do
     let dep ← rawArgs c cache (stateOf c cache vals) t
-    let d ← rhsFromArgs cache (omKeys c.vars) (dep ++ c.data)
+    let d ← rhsFromArgs2 cache (omKeys c.vars) dep (dep ++ c.data)
     pure (.assoc d)
   | .call t vals =>
     let xs := (cycle vals 0 (omKeys c.vars)).map (·.2)
@@ -714,7 +741,7 @@ def answer (c : Content) (cache : Cache) : Query → Except Err Ans
       .error (.valueError "zip() argument lengths differ")
     else do
       let dep ← rawArgs c cache (cache.varNames.zip xs) t
-      let dxdt ← rhsFromArgs cache cache.varNames (dep ++ c.data)
+      let dxdt ← rhsFromArgs2 cache cache.varNames dep (dep ++ c.data)
       let l ← cache.varNames.mapM fun k => Env.get dxdt k
       pure (.rats l)
   | .stoich vals t => do
@@ -755,7 +782,7 @@ def answer (c : Content) (cache : Cache) : Query → Except Err Ans
     -- `_get_right_hand_side(args={"time": time} | row)`
     let l ← rows.mapM fun (t, vals) => do
       let row ← argsRow c cache (cycle vals 0 (omKeys c.vars)) t { time := false }
-      rhsFromArgs cache (omKeys c.vars) (row ++ [("time", t)] ++ c.data)
+      rhsFromArgs2 cache (omKeys c.vars) (row ++ [("time", t)]) (row ++ [("time", t)] ++ c.data)
     pure (.rows l)
   | .eqFresh => .ok (.bool true)
 
